@@ -243,6 +243,16 @@ Theorem C12_upgrade_reimport_iff : forall sekai lit,
 Proof. exact upgrade_reimport_iff. Qed.
 Print Assumptions C12_upgrade_reimport_iff.
 
+(* x/upgrade next plan: kept for every genesis time iff InitGenesis does not apply SaveNextPlan's time check
+   (which of the two the tree does: [upgrade_import_checks_time], regenerated) *)
+Theorem C12_upgrade_next_plan_roundtrip : forall now plan, import_next_plan false now plan = plan.
+Proof. exact import_next_plan_roundtrip. Qed.
+Print Assumptions C12_upgrade_next_plan_roundtrip.
+
+Theorem C12_upgrade_next_plan_dropped_when_due : forall now t, t <= now -> import_next_plan true now (Some t) = None.
+Proof. exact import_next_plan_drops_due. Qed.
+Print Assumptions C12_upgrade_next_plan_dropped_when_due.
+
 (* ---- the decidable spec checker used on the REAL observations accepts every run of the class-level
    model in which no lost class is populated, and flags every populated lost class *)
 Theorem C12_checker_accepts_model_runs : forall pop,
